@@ -441,7 +441,7 @@ def run_models(prop, wd, tier):
     """MC_Krylov on the catalog (exact expectations) + MC_LoopControl (all outcome sequences)."""
     cs = cases()
     res = tla.run_tlc("MC_Krylov", f"SPECIFICATION Spec\nCONSTANTS\n Block = 4\n Extra = {EXTRA}\n"
-                      "INVARIANT CaseOK\nINVARIANT CtlOK\nINVARIANT Emit\n", wd,
+                      "INVARIANT CaseOK\nINVARIANT CtlOK\nINVARIANT ScaleEquivariant\nINVARIANT Emit\n", wd,
                       gen_files={"KrylovCatalog.tla": render_catalog(cs)})
     if res.error or res.violated:
         raise tla.TLCError(f"MC_Krylov failed: {res.error or res.violated}\n" + res.out[-3000:])
@@ -546,12 +546,15 @@ def select_traces(traces, cap):
             return list(lst)
         step = len(lst) / k
         return [lst[int(i * step)] for i in range(k)]
+    scd = [t for t in traces if t.get("sc") is not None]        # scaled operators (scale-equivariance family)
+    traces = [t for t in traces if t.get("sc") is None]
     ex0 = [t for t in traces if t.get("kd", 0) > 0 and t.get("tol", 1.0) == 0]
     ex1 = [t for t in traces if t.get("kd", 0) > 0 and t.get("tol", 1.0) != 0]
     rest = [t for t in traces if not t.get("kd", 0) > 0]
-    a = stride(ex0, cap // 3)
-    b = stride(ex1, cap // 2 - len(a))
-    return a + b + stride(rest, cap - len(a) - len(b))
+    s = stride(scd, cap // 6)
+    a = stride(ex0, cap // 3 - len(s) // 2)
+    b = stride(ex1, cap // 2 - len(a) - len(s))
+    return s + a + b + stride(rest, cap - len(s) - len(a) - len(b))
 
 
 def validate_traces(prop, wd, traces):
@@ -596,7 +599,7 @@ class Recorder:
                     return while_fn(cond_fun, body_fun, init_val)
                 meta = rec.meta
                 tr = {"alg": alg, "n": int(meta["n"]), "m": int(meta["m"]), "evs": [], "tag": meta.get("tag", ""),
-                      "kd": int(meta.get("kd", 0) or 0), "tol": float(meta["tol"])}
+                      "kd": int(meta.get("kd", 0) or 0), "tol": float(meta["tol"]), "sc": meta.get("sc")}
                 bodies = [0]
 
                 def cond(state):
@@ -750,6 +753,24 @@ def general_case(rng, n, kind, cplx):
 
 # ------------------------------------------------------------------------------------------------------
 # numeric helpers
+def tol_eff(item):
+    """tolerance in force: item["tol"] is None when the argument is omitted (cola's default)"""
+    return 1e-7 if item.get("tol") is None else item["tol"]
+
+
+def is_pow2(c):
+    """multiplication by c is exact in binary floating point (barring under / overflow)"""
+    return c is not None and c > 0 and float(np.frexp(c)[0]) == 0.5
+
+
+def null_start(hs, A_t):
+    """start vector (numerically) in the null space: ||A q_1|| is round-off, the known eigvec-start garbage regime"""
+    if hs is None:
+        return False
+    sA = max(float(np.abs(np.asarray(A_t)).sum(1).max()), 1e-300)
+    return bool(getattr(hs, "scale", sA) <= 1e-8 * sA)
+
+
 def tol_of(dt):
     """(relative tolerance for O(1) relations, eps)"""
     eps = float(np.finfo(np.dtype(NPDT.get(dt, dt))).eps)
